@@ -773,6 +773,111 @@ def expand_list_comprehensions(fn: ast.FunctionDef) -> bool:
     return changed
 
 
+def inline_generator_loops(fn: ast.FunctionDef) -> bool:
+    """`g = (<elt> for a in A for b in B if c)` bound once and consumed by exactly one `for T in g: body` (nothing else
+    reads g) -> `for a in A: for b in B: if c: T = <elt>; body`.  A generator is lazy and consumed in order, so the
+    nested loops run the same statements in the same order; `continue` in the body still continues the innermost loop and
+    the loop has no `else`/`break` (those would leave only the innermost loop) - otherwise it is left alone."""
+    changed = False
+    uses: Dict[str, int] = {}
+    for x in ast.walk(fn):
+        if isinstance(x, ast.Name) and isinstance(x.ctx, ast.Load):
+            uses[x.id] = uses.get(x.id, 0) + 1
+    stores: Dict[str, int] = {}
+    for x in ast.walk(fn):
+        if isinstance(x, ast.Name) and isinstance(x.ctx, ast.Store):
+            stores[x.id] = stores.get(x.id, 0) + 1
+
+    def block(stmts: List[ast.stmt]) -> List[ast.stmt]:
+        nonlocal changed
+        for st in stmts:
+            if isinstance(st, (ast.FunctionDef, ast.AsyncFunctionDef, ast.ClassDef)):
+                continue
+            for fld in ("body", "orelse", "finalbody"):
+                v = getattr(st, fld, None)
+                if isinstance(v, list) and v and isinstance(v[0], ast.stmt):
+                    setattr(st, fld, block(v))
+        out = list(stmts)
+        i = 0
+        while i < len(out):
+            a = out[i]
+            gname, gen = None, None
+            if isinstance(a, ast.Assign) and len(a.targets) == 1 and isinstance(a.targets[0], ast.Name) and isinstance(a.value, ast.GeneratorExp):
+                gname, gen = a.targets[0].id, a.value
+            if gname and stores.get(gname) == 1 and uses.get(gname) == 1:
+                for j in range(i + 1, len(out)):
+                    b = out[j]
+                    if isinstance(b, ast.For) and isinstance(b.iter, ast.Name) and b.iter.id == gname and not b.orelse and not any(isinstance(z, ast.Break) for bb in b.body for z in ast.walk(bb)):
+                        bind = ast.copy_location(ast.Assign(targets=[b.target], value=gen.elt), b)
+                        inner: List[ast.stmt] = [bind] + list(b.body)
+                        gens = gen.generators
+                        # a pure renaming `for x, y in ((a, b) for a in A for b in B)`: the comprehension variables take
+                        # the loop's names (when that captures nothing)
+                        t_el = b.target.elts if isinstance(b.target, ast.Tuple) else [b.target]
+                        e_el = gen.elt.elts if isinstance(gen.elt, ast.Tuple) else [gen.elt]
+                        comp_vars = {z.id for c_ in gens for z in ast.walk(c_.target) if isinstance(z, ast.Name)}
+                        if len(t_el) == len(e_el) and all(isinstance(x, ast.Name) for x in t_el + e_el) and len({x.id for x in e_el}) == len(e_el) and {x.id for x in e_el} <= comp_vars:
+                            ren = {e.id: t.id for e, t in zip(e_el, t_el)}
+                            others = {z.id for c_ in gens for z in ast.walk(c_) if isinstance(z, ast.Name)} - set(ren)
+                            if not (set(ren.values()) & others):
+                                class _Ren(ast.NodeTransformer):
+                                    def visit_Name(self, node):
+                                        if node.id in ren:
+                                            return ast.copy_location(ast.Name(id=ren[node.id], ctx=node.ctx), node)
+                                        return node
+                                gens = [_Ren().visit(clone(c_)) for c_ in gens]
+                                inner = list(b.body)
+                        for comp in reversed(gens):
+                            for cond in reversed(comp.ifs):
+                                inner = [ast.copy_location(ast.If(test=cond, body=inner, orelse=[]), b)]
+                            inner = [ast.copy_location(ast.For(target=comp.target, iter=comp.iter, body=inner, orelse=[], type_comment=None), b)]
+                        out[j] = inner[0]
+                        del out[i]
+                        changed = True
+                        i -= 1
+                        break
+                    if any(isinstance(z, ast.Name) and z.id == gname for z in ast.walk(b)):
+                        break
+            i += 1
+        return out
+
+    fn.body = block(fn.body)
+    if changed:
+        ast.fix_missing_locations(fn)
+    return changed
+
+
+def split_tuple_assignments(fn: ast.FunctionDef) -> bool:
+    """`a, b = (x, y)` with plain names on the right (what inlining a tuple-returning helper leaves) -> `a = x; b = y`:
+    the names on the right are read before either target is written only if no target is among them."""
+    changed = False
+
+    def block(stmts: List[ast.stmt]) -> List[ast.stmt]:
+        nonlocal changed
+        out: List[ast.stmt] = []
+        for st in stmts:
+            if isinstance(st, (ast.FunctionDef, ast.AsyncFunctionDef, ast.ClassDef)):
+                out.append(st)
+                continue
+            for fld in ("body", "orelse", "finalbody"):
+                v = getattr(st, fld, None)
+                if isinstance(v, list) and v and isinstance(v[0], ast.stmt):
+                    setattr(st, fld, block(v))
+            if isinstance(st, ast.Try):
+                for h in st.handlers:
+                    h.body = block(h.body)
+            if isinstance(st, ast.Assign) and len(st.targets) == 1 and isinstance(st.targets[0], ast.Tuple) and isinstance(st.value, ast.Tuple) and len(st.targets[0].elts) == len(st.value.elts) and all(isinstance(e, ast.Name) for e in st.targets[0].elts) and not ({e.id for e in st.targets[0].elts} & {z.id for e in st.value.elts for z in ast.walk(e) if isinstance(z, ast.Name)}) and (all(isinstance(e, ast.Name) for e in st.value.elts) or sum(1 for e in st.value.elts for z in ast.walk(e) if isinstance(z, ast.Call)) == 0):
+                for t, v in zip(st.targets[0].elts, st.value.elts):
+                    out.append(ast.copy_location(ast.Assign(targets=[t], value=v), st))
+                changed = True
+                continue
+            out.append(st)
+        return out
+
+    fn.body = block(fn.body)
+    return changed
+
+
 def split_conditional_assignments(fn: ast.FunctionDef) -> bool:
     """`x = A if C else B`  ->  `if C: x = A` / `else: x = B` (statement level): path rules then see two paths."""
     changed = False
@@ -984,6 +1089,7 @@ def normalised(ctx: Ctx, f: Func, steps: str = "delegation,tailcalls,calls,unrol
             round_changed |= inline_value_calls(ctx, f, fn)
         if "multiret" in want:
             round_changed |= inline_multi_return_calls(ctx, f, fn)
+            round_changed |= split_tuple_assignments(fn)
         if "unroll" in want:
             mconsts = {k: v[0] for k, v in f.module.consts.items() if len(v) == 1 and isinstance(v[0], (ast.Tuple, ast.List))}
             round_changed |= unroll_literal_loops(fn, mconsts)
@@ -1005,6 +1111,9 @@ def normalised(ctx: Ctx, f: Func, steps: str = "delegation,tailcalls,calls,unrol
         changed |= round_changed
         if not round_changed:
             break
+    if "genloops" in want:
+        changed |= inline_generator_loops(fn)
+        changed |= split_tuple_assignments(fn)
     if "ifexp" in want:
         changed |= split_conditional_assignments(fn)
     if "decomp" in want:
